@@ -115,7 +115,15 @@ func (c *Ctx) OK(rule, construct string, pos token.Pos, format string, a ...inte
 	c.add(rule, construct, pos, Discharged, fmt.Sprintf(format, a...))
 }
 func (c *Ctx) Bad(rule, construct string, pos token.Pos, format string, a ...interface{}) {
-	c.add(rule, construct, pos, Violated, fmt.Sprintf(format, a...))
+	msg := fmt.Sprintf(format, a...)
+	// A claim that quotes an unknown value is a claim about what the interpreter could not follow,
+	// not about the code: it is filed as undecided.  (The one ⊤ that is a definite value — the
+	// float zero, which is no input term — does not count.)
+	if strings.Contains(strings.ReplaceAll(msg, "⊤(zero float (0 is not an input term))", ""), "⊤(") {
+		c.add(rule, construct, pos, Undecided, msg+" — not decided: the value quoted is one the interpreter could not determine")
+		return
+	}
+	c.add(rule, construct, pos, Violated, msg)
 }
 func (c *Ctx) Unk(rule, construct string, pos token.Pos, format string, a ...interface{}) {
 	c.add(rule, construct, pos, Undecided, fmt.Sprintf(format, a...))
